@@ -103,6 +103,9 @@ func rtClass(msg string) string {
 	if strings.Contains(msg, "stack overflow") {
 		return "stack-overflow"
 	}
+	if strings.Contains(msg, "too many nested blocks") {
+		return "too-many-blocks"
+	}
 	return "other:" + msg
 }
 
